@@ -202,18 +202,6 @@ def correspondence(ctx, pf, cases):
             if len(exp) != len(got) or not all(abs(g - e) <= 1e-9 * max(1.0, scale) for g, e in zip(got, exp)):
                 ctx.violation(key, f'{wave} time function at {ts}: impl {got} model {exp}', dict(replay, ts=ts),
                               kind='obligation')
-            # the time axis is data: integer-typed instants (np.arange) must give the values of the same instants as binary64, and a
-            # scalar must give what the one-element array gives
-            try:
-                ti = np.arange(-3, 5)
-                gi = np.asarray(f(ti), dtype=float)
-                gf = np.asarray(f(ti.astype(float)), dtype=float)
-                ctx.count('time-function:integer-typed-instants')
-                if gi.shape != gf.shape or np.max(np.abs(gi - gf)) > 1e-12 * max(1.0, scale):
-                    ctx.violation('C08:time-function-depends-on-the-dtype-of-t', f'{wave} {prm}: values at the integer-typed instants {ti.tolist()} '
-                                  f'{gi.tolist()} differ from the values at the same instants as floats {gf.tolist()}', dict(replay, ts=ti.tolist()))
-            except Exception as e:  # noqa: BLE001
-                ctx.violation(f'C08:time-function-raises-{type(e).__name__}', f'{wave} on an integer-typed time array: {str(e)[:100]}', replay)
 
 
 # ------------------------------------------------------------------ numerical search on the implementation
@@ -262,6 +250,19 @@ def search(ctx, pf, cases):
         if prm[1] != 0:
             ctx.nontriv({'wave': wave, 'params': prm})
         fv = lambda t: np.asarray(f(t), dtype=float) * np.ones_like(t)
+        # the time axis is data: integer-typed instants (np.arange) must give the values of the same instants as binary64
+        try:
+            ti = np.arange(-3, 5)
+            gi = np.asarray(f(ti), dtype=float) * np.ones(len(ti))
+            gf = np.asarray(f(ti.astype(float)), dtype=float) * np.ones(len(ti))
+            ctx.count('time-function:integer-typed-instants')
+            if gi.shape != gf.shape or np.max(np.abs(gi - gf)) > 1e-12 * max(1.0, abs(prm[1]) + abs(prm[3])):
+                ctx.violation('C08:time-function-depends-on-the-dtype-of-t', f'{wave} {prm}: values at the integer-typed instants {ti.tolist()} '
+                              f'{gi.tolist()} differ from the values at the same instants as floats {gf.tolist()}',
+                              {'wave': wave, 'params': prm, 'ts': ti.tolist()})
+        except Exception as e:  # noqa: BLE001
+            ctx.violation(f'C08:time-function-raises-{type(e).__name__}', f'{wave} on an integer-typed time array: {str(e)[:100]}',
+                          {'wave': wave, 'params': prm})
         m = int_period(fv, prm)
         bad = None
         if abs(m - T * h.amplitude(0)) > 1e-9 * max(scale, 1e-300):
@@ -316,8 +317,9 @@ def run(ctx):
     ctx.trusted = TRUSTED
     ctx.assumptions = ['float arithmetic of the implementation agrees with exact arithmetic to 1e-11 relative',
                        'np.mod / float % = x - T floor(x/T)']
-    ctx.partial = ['mean-square convergence / Parseval (C08_parseval_full) is stated, not proved; checked numerically '
-                   '(partial sums up to N = 200 against the quadrature of f^2)']
+    ctx.partial = ['on the implementation side float %, np.vectorize and the coefficient methods are compared numerically (quadrature, partial sums up to '
+                   'N = 200 against the quadrature of f^2); on the model side the whole statement incl. mean-square convergence / Parseval is proved '
+                   '(C08e: Basel and zeta(4) in the development)']
     if prologue(ctx):
         from CircuitCalculator.SignalProcessing import periodic_functions as pf
         cases = all_cases(ctx)
